@@ -54,7 +54,7 @@ def plan(tier, seed):
     return {
         "nshards": 16,
         "params": {"soft_s": 35, "max_programs": 400, "min_programs": 4},
-        "hard_timeout_s": 400,
+        "hard_timeout_s": 1200,
     }
 
 
